@@ -853,10 +853,33 @@ func cCloseBeforeSuccess(c *Ctx, gd *Module, h *ssa.Function, rule string) {
 				continue
 			}
 			n++
-			okClosed := false
-			for _, cl := range closes {
-				if hasFact(factsAt(cs3), errNilOf(cl)) {
-					okClosed = true
+			okClosed := true
+			if os.Getenv("VERIF_DEBUG_CLOSE") != "" {
+				for i, cse := range factCases(factsAt(cs3)) {
+					for _, f := range cse {
+						fmt.Printf("CLOSE case %d: %v %s\n", i, f.Pol, shortDesc(describe(f.Cond)))
+					}
+				}
+				for _, cl := range closes {
+					fmt.Printf("CLOSE call: %s at %s\n", cl.String(), gd.Pos(cl.Pos()))
+				}
+			}
+			for _, cse := range factCases(factsAt(cs3)) {
+				okCase := false
+				for _, cl := range closes {
+					if hasFact(cse, errNilOf(cl)) {
+						okCase = true
+					}
+					// the error tested may be a merged variable (the result of an expanded helper): on
+					// the only edge that can carry nil it is this Close's result
+					for _, v := range knownNilValues(cse) {
+						if strip(v) == ssa.Value(cl) {
+							okCase = true
+						}
+					}
+				}
+				if !okCase {
+					okClosed = false
 				}
 			}
 			r.Check(rule, fname(h)+"/answers 200 only after the object's writer was closed without error", gd.Pos(cs3.Pos()), okClosed,
@@ -864,4 +887,48 @@ func cCloseBeforeSuccess(c *Ctx, gd *Module, h *ssa.Function, rule string) {
 		}
 	}
 	r.Check(rule, fname(h)+"/success answers after a write enumerated", gd.Pos(h.Pos()), n >= 1, fmt.Sprintf("%d", n))
+}
+
+// knownNilValues: the values the facts assert to be nil; a merged value (phi) is replaced by the
+// value of its only incoming edge that the facts do not rule out.
+func knownNilValues(facts []Fact) []ssa.Value {
+	var out []ssa.Value
+	for _, f := range facts {
+		bo, ok := f.Cond.(*ssa.BinOp)
+		if !ok || !(bo.Op == token.EQL && f.Pol || bo.Op == token.NEQ && !f.Pol) {
+			continue
+		}
+		var v ssa.Value
+		if isNilConst(bo.Y) {
+			v = bo.X
+		} else if isNilConst(bo.X) {
+			v = bo.Y
+		} else {
+			continue
+		}
+		out = append(out, v)
+		cur := f
+		for depth := 0; depth < 4; depth++ {
+			phi, contradicts := phiFact(cur)
+			if phi == nil {
+				break
+			}
+			var feasible []int
+			for i := range phi.Edges {
+				if !contradicts(i) {
+					feasible = append(feasible, i)
+				}
+			}
+			if len(feasible) != 1 {
+				break
+			}
+			e := phi.Edges[feasible[0]]
+			out = append(out, e)
+			if _, isPhi := e.(*ssa.Phi); !isPhi {
+				break
+			}
+			break
+		}
+	}
+	return out
 }
